@@ -8,6 +8,7 @@ import json, subprocess, sys
 from pathlib import Path
 
 ROOT = Path(sys.argv[1])
+MODE = sys.argv[2] if len(sys.argv) > 2 else 'mixed'   # mixed: A ordinary, B rare (round 4); ordinary: both ordinary (round 5)
 props = [json.loads(l) for l in open('/verif/properties.jsonl')]
 
 TEMPLATE = """You are working in a scratch git worktree of the Python library hpl-specs (HPL: a small specification language for message-based/ROS behavioural properties - parser, AST, type inference, logic rewriter, CLI) located at {d}/repo . Work ONLY inside {d} ; never read or write /repo or /verif or {root}/<other ids>. Do NOT use `git stash` (the stash is shared with other worktrees); to get back to the clean tree use `git checkout -- .` and to apply a saved change use `git apply`.
@@ -24,9 +25,7 @@ Here is a semantic property that the library is supposed to satisfy:
 TASK. Produce TWO different, realistic source changes to files under src/hpl/ (the kind of regression a maintainer could plausibly introduce: a refactoring slip, an off-by-one, a wrong entry in an operator/function table, a dropped or weakened side-condition, swapped arguments, a forgotten child slot, a cached/shared mutable object, a too-eager optimisation, a changed default, a comparison by identity instead of equality, an early return, a changed iteration order ...). Each change, applied alone, must:
  (1) still import and pass all 49 existing tests (run them to be sure);
  (2) make the library violate the property above - really and unambiguously with respect to the property text.
-Change A: an ORDINARY regression - the most plausible slip you can find in a code path that the property depends on and that the earlier changes listed below did not touch (read the code the property is about, pick a function, helper, table entry or branch nobody has broken yet). Do not make it artificially hard to trigger; it just has to survive the test suite.
-Change B: a regression that needs something SPECIFIC AND RARE to manifest - inputs or call sequences that a person writing a handful of examples, or even a tool enumerating all small inputs, would be unlikely to try: a particular combination of three or more features, a larger or deeper input than usual, a particular numeric or string value, a particular order of several API calls on shared objects, an object built through the constructors rather than the parser, or two cooperating code sites that each look fine alone.
-Make A and B differ in mechanism (different function and, where possible, different file).
+{ask}Make A and B differ in mechanism (different function and, where possible, different file).
 
 Other people already produced the following changes for this property; yours must use DIFFERENT mechanisms and, where possible, different code locations and different parts of the property statement:
 {earlier}
@@ -40,6 +39,12 @@ Verify everything yourself: each demo exits 0 on the clean tree and 1 with its p
 Your final answer: a short summary (5 lines) of A and B.
 """
 
+ASK_MIXED = '''Change A: an ORDINARY regression - the most plausible slip you can find in a code path that the property depends on and that the earlier changes listed below did not touch (read the code the property is about, pick a function, helper, table entry or branch nobody has broken yet). Do not make it artificially hard to trigger; it just has to survive the test suite.
+Change B: a regression that needs something SPECIFIC AND RARE to manifest - inputs or call sequences that a person writing a handful of examples, or even a tool enumerating all small inputs, would be unlikely to try: a particular combination of three or more features, a larger or deeper input than usual, a particular numeric or string value, a particular order of several API calls on shared objects, an object built through the constructors rather than the parser, or two cooperating code sites that each look fine alone.
+'''
+ASK_ORDINARY = '''Changes A and B: two ORDINARY regressions - the most plausible slips you can find in code paths that the property depends on and that the earlier changes listed below did not touch (read the code the property is about; pick functions, helpers, table entries or branches nobody has broken yet). Do not make them artificially hard to trigger: a user of the library would run into them with everyday inputs; they just have to survive the test suite.
+'''
+
 for p in props:
     cid = p['id']
     d = ROOT / cid
@@ -51,5 +56,5 @@ for p in props:
         earlier.append(' - ' + json.loads(m.read_text())['what'].strip())
     title = p.get('title') or p.get('name') or ''
     statement = p.get('statement') or p.get('description') or ''
-    (d / 'PROMPT.txt').write_text(TEMPLATE.format(d=d, root=ROOT, title=title, statement=statement, earlier='\n'.join(earlier)))
+    (d / 'PROMPT.txt').write_text(TEMPLATE.format(d=d, root=ROOT, title=title, statement=statement, ask=ASK_MIXED if MODE == 'mixed' else ASK_ORDINARY, earlier='\n'.join(earlier)))
     print(cid, len(earlier), 'earlier changes listed')
